@@ -331,7 +331,7 @@ func checkCodec(c CodecCase, cv *cov) (v *evid.Violation) {
 		for i := range c.Items {
 			calls := sr.Calls
 			if i > 0 && i%5 == 0 {
-				br.Release(nil) // values returned so far must survive a Release and further reads
+				br.Release(releaseArg(i / 5)) // values returned so far must survive a Release (with any argument) and further reads
 			}
 			if v = readItemKeep(&c.Items[i], ones[i], want[off:], r, &kept); v != nil {
 				v.Msg = fmt.Sprintf("item %d: %s (source plan %+v)", i, v.Msg, sr.Plan)
